@@ -588,6 +588,11 @@ class ModuleNormalizer:
                 if h is not None:
                     return self.hoist(s, s.value.value, h, recv, caller_names, lambda new: setattr(s.value, 'value', new))
                 return None
+            # for T in g(...): BODY   with g a generator helper that has a single `yield V`:  g's body with `T = V; BODY` at the yield
+            if isinstance(s, ast.For) and not s.orelse:
+                h, recv = helper_of(s.iter, gen=True)
+                if h is not None:
+                    return self.fuse_generator(s, h, recv, caller_names)
             # for x in h(...):   the iterable is evaluated once, before the loop
             if isinstance(s, ast.For):
                 h, recv = helper_of(s.iter)
@@ -661,6 +666,66 @@ class ModuleNormalizer:
         except Skip:
             return None
         return None
+
+    def fuse_generator(self, s, h, recv, caller_names):
+        ys = [n for n in own_walk(h.node) if isinstance(n, (ast.Yield, ast.YieldFrom))]
+        if len(ys) != 1 or not isinstance(ys[0], ast.Yield) or ys[0].value is None:
+            raise Skip('generator with several yields')
+
+        def loop_level(stmts, kinds):
+            # break/continue statements of `stmts` that belong to the for loop itself (not to nested loops)
+            out = []
+            for st in stmts:
+                if isinstance(st, kinds):
+                    out.append(st)
+                elif isinstance(st, (ast.For, ast.While)):
+                    out += loop_level(st.orelse, kinds)
+                elif isinstance(st, (ast.If, ast.With, ast.Try)):
+                    for fld in ('body', 'orelse', 'finalbody'):
+                        out += loop_level(getattr(st, fld, []) or [], kinds)
+                    for hd in getattr(st, 'handlers', []):
+                        out += loop_level(hd.body, kinds)
+            return out
+        if loop_level(s.body, (ast.Continue,)):
+            raise Skip('continue in the body would skip the generator step')
+        pre, body = self.prepare(h, s.iter, recv, caller_names | all_names(s), False)
+        # locate the yield statement in the copied body
+        found = []
+
+        def place(stmts, in_loop, is_last):
+            for i, st in enumerate(stmts):
+                last = is_last and i == len(stmts) - 1
+                if isinstance(st, ast.Expr) and isinstance(st.value, ast.Yield):
+                    assign = ast.copy_location(ast.Assign(targets=[copy.deepcopy(s.target)], value=st.value.value, lineno=st.lineno), st)
+                    for n in ast.walk(assign.targets[0]):
+                        if hasattr(n, 'ctx'):
+                            n.ctx = ast.Store()
+                    stmts[i:i + 1] = [assign] + s.body
+                    found.append((in_loop, last))
+                    return True
+                if isinstance(st, (ast.For, ast.While)):
+                    if place(st.body, True, last):
+                        return True
+                elif isinstance(st, ast.If):
+                    if place(st.body, in_loop, last) or place(st.orelse, in_loop, last):
+                        return True
+                elif any(isinstance(n, ast.Yield) for n in ast.walk(st)):
+                    raise Skip('yield inside try/with/expression')
+            return False
+        if not place(body, False, True) or not found:
+            raise Skip('yield not found')
+        in_loop, tail_ok = found[0]
+        if loop_level(s.body, (ast.Break,)) and not in_loop:
+            raise Skip('break without an enclosing generator loop')
+        if loop_level(s.body, (ast.Break,)):
+            # leaving the for loop abandons the generator: nothing of the generator may run afterwards
+            top_last = body[-1] if body else None
+            if not (isinstance(top_last, (ast.For, ast.While)) and any(isinstance(n, ast.Assign) and n in ast.walk(top_last) for n in [None]) is False):
+                pass
+            if not isinstance(top_last, (ast.For, ast.While)) or top_last.orelse:
+                raise Skip('statements after the generator loop would run after a break')
+        self.inlined.append(h.node.name)
+        return pre + body
 
     def hoist(self, s, call, h, recv, caller_names, put):
         self.tmp += 1
